@@ -391,3 +391,86 @@ def framed_feats(rng, distinct_starts=False):
                 s = e + rng.randrange(2, 8)
         frames.extend(frame_series(rng, n))
     return rows, frames
+
+
+# -- workload classes added in round 5 ------------------------------------------------------------------------------------
+def long_run_rows(seed, n):
+    """(a) ONE VERY LONG RUN: n (>= 1000) mutually chained features of one seqid / strand / type - every one begins inside its
+    predecessor or on the base after it, starts strictly increasing (no ties on the merge order) -, plus a second short run and
+    a singleton on the same labels beyond a gap, 2..4 features over the same coordinates on another strand / seqid / type, and a
+    'locus' parent over everything that most features name as Parent (so that the members hold relation rows); file order
+    shuffled.  -> (rows, ids, parents, index list of the long run in start order)"""
+    import random
+
+    rng = random.Random(seed * 2654435761 % (1 << 31) + 5)
+    seqid, strand, ftype = rng.choice(SEQIDS), rng.choice(STRANDS), rng.choice(TYPES)
+    off = rng.choice([0, 1000, 131072 - 2500, 2 ** 20 - 3000])
+    rows = []
+    s = off + rng.randrange(1, 20)
+    for _ in range(n):
+        e = s + rng.choice([2, 4, 4, 9, 14, 30])
+        rows.append([seqid, strand, ftype, s, e])
+        s = rng.randrange(s + 1, e + 2)                 # begins inside its predecessor, or touches it
+    chain = list(range(n))
+    hi = max(r[4] for r in rows)
+    s = hi + rng.randrange(5, 40)
+    for _ in range(3):                                   # a short run of three beyond a gap
+        rows.append([seqid, strand, ftype, s, s + 9])
+        s += rng.choice([3, 10])
+    rows.append([seqid, strand, ftype, s + 60, s + 70])  # a singleton
+    other_strand = rng.choice([x for x in STRANDS if x != strand])
+    mid = rows[n // 2][3]
+    rows.append([seqid, other_strand, ftype, mid, mid + 7])
+    rows.append([[x for x in SEQIDS if x != seqid][0], strand, ftype, mid, mid + 7])
+    if rng.random() < 0.5:
+        rows.append([seqid, strand, [x for x in TYPES if x != ftype][0], mid + 1, mid + 5])
+    ids = ["f%d" % i for i in range(len(rows))]
+    parents = [["L0"] if r[0] == seqid and rng.random() < 0.8 else [] for r in rows]
+    rows.append([seqid, ".", "locus", off + 1, max(r[4] for r in rows) + 3])
+    ids.append("L0")
+    parents.append([])
+    order = list(range(len(rows)))
+    rng.shuffle(order)
+    pos = {old: new for new, old in enumerate(order)}
+    return [rows[i] for i in order], [ids[i] for i in order], [parents[i] for i in order], [pos[i] for i in chain]
+
+
+LOOSER = [["seqid", "overlap_end_inclusive", "feature_type"], ["seqid", "overlap_end_inclusive", "feature_type"],
+          ["seqid", "strand", "feature_type", ["overlap_end_threshold", 6]], ["seqid", "feature_type", ["overlap_end_threshold", 4]],
+          ["seqid", ["overlap_end_threshold", 2], "strand", "feature_type"]]
+
+
+def remerge_feats(rng):
+    """(b) Start-ordered rows of ONE seqid and featuretype for a two-stage merge: 2..4 clusters, each 2..4 features chained on
+    one strand (a multi-member run of the first, per-strand, stage), consecutive clusters on different strands overlapping
+    each other, touching, or 2..6 bases apart (joined by a second stage that ignores the strand or reaches further), now and
+    then a singleton in between; -> (rows, first criteria, second criteria, rows of NEW features for the second stage)."""
+    seqid, ftype = rng.choice(SEQIDS), rng.choice(TYPES)
+    off = rng.choice([0, 0, 131060, 2 ** 20 - 20])
+    rows = []
+    s = off + rng.randrange(1, 10)
+    strand = rng.choice(STRANDS)
+    hi = s
+    for c in range(rng.choice([2, 2, 3, 4])):
+        k = rng.choice([1, 2, 2, 3, 4]) if c else rng.choice([2, 2, 3, 4])     # the first cluster is a multi-member run
+        for _ in range(k):
+            e = s + rng.choice([2, 4, 9, 14])
+            rows.append([seqid, strand, ftype, s, e])
+            hi = max(hi, e)
+            s = rng.randrange(s + 1, e + 2)
+        r = rng.random()
+        # where the next cluster begins: inside this one, touching it, a few bases beyond, or far away
+        lo = max(s, hi - 6)
+        s = (lo if lo >= hi else rng.randrange(lo, hi + 1)) if r < 0.45 else hi + 1 if r < 0.6 else hi + rng.randrange(2, 7) if r < 0.85 \
+            else hi + rng.randrange(12, 30)
+        if rng.random() < 0.8:
+            strand = rng.choice([x for x in STRANDS if x != strand])
+    first = list(DEFAULT) if rng.random() < 0.7 else ["seqid", "strand", "feature_type", ["overlap_end_threshold", rng.choice([0, 1])]]
+    second = [x if isinstance(x, str) else list(x) for x in rng.choice(LOOSER)]
+    new = []
+    for _ in range(rng.choice([0, 0, 1, 2])):
+        # new features for the second stage: over / right behind an existing feature, or behind everything
+        m = rng.choice(rows)
+        a = m[3] + rng.choice([1, 2, 5]) if rng.random() < 0.7 else hi + rng.choice([1, 2, 9])
+        new.append([seqid, rng.choice(STRANDS), ftype, a, a + rng.choice([0, 3, 8, 20])])
+    return rows, first, second, new
